@@ -514,6 +514,10 @@ def run(ctx):
     check_fchk_moment_order(ctx, "R23")
     ctx.rule("R24", "XYZ with user-defined columns: every column written is read back into its own attribute / dictionary key (evaluated)", "two columns under one dictionary attribute: the second replaces the first, the written file cannot be read back")
     check_xyz_columns(ctx, "R24")
+    ctx.rule("R25", "cube header: origin, axes, shape, atoms and core charges written are read back (writer and reader routines evaluated)", "axes written transposed, the origin in another line, core charges in the atomic-number column")
+    check_cube_header_pair(ctx, "R25")
+    ctx.rule("R26", "POSCAR: the cell and the fractional coordinates written give the same Cartesian positions when read (writer and header reader evaluated; atoms grouped by element)", "fractional coordinates computed with the transposed inverse cell: atoms of a non-orthogonal cell come back displaced")
+    check_poscar_pair(ctx, "R26")
     ctx.rule("R14", "formats read by splitting at white space are written with a literal separator between neighbouring fields", "for a large system a counter fills its field and touches its neighbour: the written line has fewer tokens and cannot be read back")
     with open(os.path.join(VERIF_DIR, "spec", "layouts.json")) as fh:
         column_formats = set(json.load(fh)) - {"_comment"}
@@ -909,3 +913,109 @@ def check_xyz_columns(ctx, rid):
             ctx.violate(rid, f"XYZ with user-defined columns: `{attr}`" + (f"['{key}']" if key else "") + f" is written as {w.tolist()} and read back as {np.asarray(got).tolist() if got is not None else None}", lo, lo.node, construct=f"xyz columns: {attr} {key}")
             return
     ctx.ok(rid, "xyz: scalar, vector and dictionary columns (two under one attribute) written by dump_one come back from load_one under their own attribute / key", f"{lo.module.relpath}:{lo.lineno}")
+
+
+def check_cube_header_pair(ctx, rid):
+    """`_write_cube_header` into a model file, `_read_cube_header` on the resulting lines: a non-symmetric axes matrix,
+    three different grid counts, two atoms whose core charges differ from their atomic numbers."""
+    from ..accessors import AccessorEval, Raised, Rec, TextSink
+    from ..symarr import NotSymbolic
+
+    prog = ctx.prog
+    wh = prog.funcs.get("iodata.formats.cube._write_cube_header")
+    rh = prog.funcs.get("iodata.formats.cube._read_cube_header")
+    if wh is None or rh is None:
+        raise AnalysisError("cube: _write_cube_header / _read_cube_header not found")
+    licls = prog.cls("iodata.utils.LineIterator")
+    cucls = prog.cls("iodata.utils.Cube")
+    origin = np.array([0.5, -1.5, 2.5])
+    axes = np.array([[0.125, 0.25, 0.375], [0.5, 0.625, 0.75], [0.875, 1.0, 1.125]])
+    shape = np.array([2, 3, 4])
+    atcoords = np.array([[1.0, 2.0, 3.0], [-4.0, 5.5, 6.25]])
+    atnums = np.array([14, 1])
+    atcorenums = np.array([4.0, 1.0])
+    cube = Rec(cucls, origin=origin, axes=axes, shape=shape, data=np.zeros((2, 3, 4)))
+    sink = TextSink()
+    try:
+        ev = AccessorEval(prog, cucls, limit=20000)
+        ev.module = wh.module
+        ev.run_free(wh, [sink, "model title", atcoords, atnums, cube, atcorenums], {})
+        lines = [ln + "\n" for ln in sink.text.split("\n") if ln != ""]
+        lit = Rec(licls, filename="F", fh=iter(lines), lineno=0, stack=[])
+        ev = AccessorEval(prog, licls, limit=20000)
+        ev.module = rh.module
+        title, c2, n2, cell2, cube2, q2 = ev.run_free(rh, [lit], {})
+    except Raised as exc:
+        ctx.violate(rid, f"cube header: the header written by _write_cube_header makes _read_cube_header raise {exc.args[0]}", rh, rh.node, construct="cube header: raises")
+        return
+    except (NotSymbolic, TypeError, ValueError) as exc:
+        raise AnalysisError(f"cube header routines are outside the evaluation whitelist: {exc}") from exc
+    num = lambda a: np.asarray(a, dtype=float)
+    checks = [
+        ("title", title == "model title", title),
+        ("origin", num(cube2.get("origin")).shape == (3,) and np.abs(num(cube2["origin"]) - origin).max() < 1e-5, cube2.get("origin")),
+        ("axes (one step vector per row)", num(cube2.get("axes")).shape == (3, 3) and np.abs(num(cube2["axes"]) - axes).max() < 1e-5, cube2.get("axes")),
+        ("shape", [int(x) for x in num(cube2.get("shape")).ravel()] == [2, 3, 4], cube2.get("shape")),
+        ("cell vectors = step vectors x number of points", num(cell2).shape == (3, 3) and np.abs(num(cell2) - axes * shape.reshape(-1, 1)).max() < 1e-5, cell2),
+        ("atomic numbers", [int(x) for x in num(n2).ravel()] == [14, 1], n2),
+        ("core charges", np.abs(num(q2) - atcorenums).max() < 1e-5 if num(q2).shape == (2,) else False, q2),
+        ("atomic coordinates", num(c2).shape == (2, 3) and np.abs(num(c2) - atcoords).max() < 1e-5, c2),
+    ]
+    for what, ok_, got in checks:
+        if not ok_:
+            ctx.violate(rid, f"cube header: {what} written by _write_cube_header come(s) back as {np.asarray(got).tolist() if got is not None else None}", wh, wh.node, construct=f"cube header: {what}")
+            return
+    ctx.ok(rid, "cube: title, origin, three (count, step vector) lines and the atom lines (number, core charge, position) written by the header writer are read back by the header reader", f"{wh.module.relpath}:{wh.lineno}")
+
+
+def check_poscar_pair(ctx, rid):
+    """poscar.dump_one into a model file, chgcar._load_vasp_header on the resulting lines (angstrom standing for 1000):
+    a non-orthogonal cell and three atoms of two elements.  The cell must come back as written and every atom -- the
+    format groups atoms by element, heaviest first -- at its Cartesian position."""
+    from ..accessors import AccessorEval, Raised, Rec, TextSink
+    from ..symarr import NotSymbolic
+
+    prog = ctx.prog
+    do = prog.format_op("poscar", "dump_one")
+    rh = prog.funcs.get("iodata.formats.chgcar._load_vasp_header")
+    if do is None or rh is None:
+        raise AnalysisError("poscar.dump_one / chgcar._load_vasp_header not found")
+    licls = prog.cls("iodata.utils.LineIterator")
+    iocls = prog.cls("iodata.iodata.IOData")
+    A = 1000.0
+    cell = np.array([[1.0, 0.0, 0.0], [0.5, 2.0, 0.0], [0.25, 0.75, 3.0]]) * A
+    atnums = np.array([1, 8, 1])
+    atcoords = np.array([[100.0, 200.0, 300.0], [500.0, 600.0, 700.0], [50.0, 60.0, 70.0]])
+    f0 = {n: None for n in iocls.fields}
+    f0.update(title="model title", cellvecs=cell, atnums=atnums, atcoords=atcoords)
+    sink = TextSink()
+    try:
+        ev = AccessorEval(prog, iocls, limit=20000)
+        ev.module = do.module
+        ev._globals = {("iodata.utils", "angstrom"): A}
+        ev.run_free(do, [sink, Rec(iocls, **f0)], {})
+        lines = [ln + "\n" for ln in sink.text.split("\n") if ln != ""]
+        lit = Rec(licls, filename="F", fh=iter(lines), lineno=0, stack=[])
+        ev = AccessorEval(prog, licls, limit=20000)
+        ev.module = rh.module
+        ev._globals = {("iodata.utils", "angstrom"): A}
+        title, cell2, n2, c2 = ev.run_free(rh, [lit], {})
+    except Raised as exc:
+        ctx.violate(rid, f"POSCAR: the file written by poscar.dump_one makes the VASP header reader raise {exc.args[0]}", do, do.node, construct="poscar pair: raises")
+        return
+    except (NotSymbolic, TypeError, ValueError) as exc:
+        raise AnalysisError(f"poscar.dump_one / _load_vasp_header are outside the evaluation whitelist: {exc}") from exc
+    cell2, c2 = np.asarray(cell2, dtype=float), np.asarray(c2, dtype=float)
+    n2 = [int(x) for x in np.asarray(n2).ravel()]
+    if cell2.shape != (3, 3) or np.abs(cell2 - cell).max() > 1e-6:
+        ctx.violate(rid, f"POSCAR: the cell {(cell / A).tolist()} (angstrom) comes back as {(cell2 / A).round(6).tolist()}", do, do.node, construct="poscar pair: cell")
+        return
+    if n2 != [8, 1, 1]:
+        ctx.violate(rid, f"POSCAR: atoms [H, O, H] come back as atomic numbers {n2}; the format groups by element, heaviest first: [8, 1, 1]", do, do.node, construct="poscar pair: elements")
+        return
+    want = np.array([atcoords[1], atcoords[0], atcoords[2]])
+    if c2.shape != (3, 3) or np.abs(c2 - want).max() > 1e-6:
+        k = int(np.argwhere(np.abs(c2 - want).max(axis=1) > 1e-6)[0][0]) if c2.shape == (3, 3) else 0
+        ctx.violate(rid, f"POSCAR, non-orthogonal cell: the atom written at {want[k].tolist()} comes back at {c2[k].round(6).tolist() if c2.shape == (3, 3) else c2.shape}: the fractional coordinates written do not reproduce the Cartesian position with the cell written next to them", do, do.node, construct="poscar pair: positions")
+        return
+    ctx.ok(rid, "poscar: cell, element groups (heaviest first, original order within a group) and Cartesian positions of a non-orthogonal model cell come back from the VASP header reader", f"{do.module.relpath}:{do.lineno}")
